@@ -3,6 +3,7 @@ package precompile
 import (
 	"fmt"
 	"math/big"
+	"strings"
 
 	"cosmossdk.io/math"
 	sdk "github.com/cosmos/cosmos-sdk/types"
@@ -549,6 +550,11 @@ func (p precompileFunToken) sendToEvm(
 	if err != nil {
 		return nil, ErrInvalidArgs(err)
 	}
+	// An invalid denom cannot have a FunToken mapping; string keys of the
+	// collections index panic on a null character.
+	if err := sdk.ValidateDenom(bankDenom); err != nil {
+		return nil, ErrInvalidArgs(err)
+	}
 
 	// load the FunToken mapping
 	//   For bankDenom, check if there's an existing funtoken
@@ -802,6 +808,12 @@ func (p precompileFunToken) parseArgsGetErc20Address(args []any) (
 	bankDenom, ok := args[argIdx].(string)
 	if !ok {
 		err = ErrArgTypeValidation("string bankDenom", args[argIdx])
+		return
+	}
+
+	// String keys of the collections index panic on a null character.
+	if strings.ContainsRune(bankDenom, 0) {
+		err = fmt.Errorf("invalid bank denomination format: null character")
 		return
 	}
 
